@@ -12,6 +12,7 @@ import WebrtcVerif.Drv.C13
 import WebrtcVerif.Drv.C05
 import WebrtcVerif.Drv.C19
 import WebrtcVerif.Drv.C22
+import WebrtcVerif.Drv.C23
 import WebrtcVerif.Drv.C36
 import WebrtcVerif.Drv.C40
 /-!
@@ -26,6 +27,7 @@ def runLine (toks : List String) : String :=
   | "C05" :: rest => Drv.C05.run rest
   | "C19" :: rest => Drv.C19.run rest
   | "C22" :: rest => Drv.C22.run rest
+  | "C23" :: rest => Drv.C23.run rest
   | "C36" :: rest => Drv.C36.run rest
   | "C40" :: rest => Drv.C40.run rest
   | "C13" :: rest => Drv.C13.run rest
@@ -47,6 +49,7 @@ def judgeLine (toks : List String) : String :=
   | "C05" :: rest => Drv.C05.judge rest out
   | "C19" :: rest => Drv.C19.judge rest out
   | "C22" :: rest => Drv.C22.judge rest out
+  | "C23" :: rest => Drv.C23.judge rest out
   | "C36" :: rest => Drv.C36.judge rest out
   | "C40" :: rest => Drv.C40.judge rest out
   | "C13" :: rest => Drv.C13.judge rest out
